@@ -516,7 +516,7 @@ func Generate(repoDir, outDir, shimDir string) (overlayPath string, st Stats, er
 					st.Uninstrumented = append(st.Uninstrumented, fmt.Sprintf("%s: sync/atomic is not modelled", p.Fset.Position(im.Pos())))
 				}
 			}
-			for _, n := range []string{"Cond", "Map", "Pool"} {
+			for _, n := range []string{"Cond", "Map"} {
 				ast.Inspect(f, func(m ast.Node) bool {
 					if sel, ok := m.(*ast.SelectorExpr); ok && sel.Sel.Name == n {
 						if id, ok := sel.X.(*ast.Ident); ok && id.Name == "sync" {
@@ -576,7 +576,11 @@ func Generate(repoDir, outDir, shimDir string) (overlayPath string, st Stats, er
 										if sel, ok := m.(*ast.SelectorExpr); ok {
 											if id, ok := sel.X.(*ast.Ident); ok {
 												if pn, ok := p.TypesInfo.Uses[id].(*types.PkgName); ok {
-													needImports[pn.Imported().Path()] = id.Name
+													if pn.Imported().Path() == "sync" {
+														needImports[vsyncPath] = id.Name
+													} else {
+														needImports[pn.Imported().Path()] = id.Name
+													}
 												}
 											}
 										}
